@@ -13,6 +13,8 @@
 #include "drv.h"
 #include <errno.h>
 #include <fcntl.h>
+#include <signal.h>
+#include <sys/resource.h>
 #include <dirent.h>
 #include <sys/stat.h>
 #include <sys/types.h>
@@ -295,7 +297,7 @@ void drv_apply(const char* op)
   else if(!handleOp)
   {
     strncpy(p, tok_next(), 63);
-    if(!strcmp(op, "copy") || !strcmp(op, "rename")) strncpy(q, tok_next(), 63);
+    if(!strcmp(op, "copy") || !strcmp(op, "copylim") || !strcmp(op, "rename")) strncpy(q, tok_next(), 63);
     if(strcmp(op, "get") && strcmp(op, "unlink") && strcmp(op, "dcreate") && strcmp(op, "fexists") && strcmp(op, "dexists")) k = tok_int();
     if(!strcmp(op, "put")) d = tok_bytes(&dn, 0);
   }
@@ -309,7 +311,7 @@ void drv_apply(const char* op)
     if(!strcmp(op, "put") && kp == 3) nop = 1;
     if(!strcmp(op, "open") && ((kp == 3 && (!is_linkF(p) || (k & 2))) || (kp == 1 && !(k & 2)))) nop = 1;
     if(!strcmp(op, "get") && (kp == 1 || (kp == 3 && !is_linkF(p)))) nop = 1;
-    if(!strcmp(op, "copy") && ((kq == 3 && k != 1) || !strcmp(p, q))) nop = 1;
+    if((!strcmp(op, "copy") || !strcmp(op, "copylim")) && ((kq == 3 && (k & 1) != 1) || !strcmp(p, q))) nop = 1;
   }
   if(nop) { fs_log("nop", p, q, k, d ? d : (const unsigned char*)"", dn, dIsOff, off, 0, (const unsigned char*)"", 0); free(d); return; }
 
@@ -326,6 +328,17 @@ void drv_apply(const char* op)
   }
   else if(!strcmp(op, "get")) r = File::readAll(sp, rd) ? 1 : 0;
   else if(!strcmp(op, "copy")) r = File::copy(sp, sq, k == 1) ? 1 : 0;
+  else if(!strcmp(op, "copylim"))
+  {
+    // File::copy while no file may grow beyond k / 2 bytes (stands for a full disk / quota); nothing is logged inside the window
+    struct rlimit old, lim;
+    getrlimit(RLIMIT_FSIZE, &old);
+    lim = old; lim.rlim_cur = (rlim_t)(k / 2);
+    signal(SIGXFSZ, SIG_IGN);
+    setrlimit(RLIMIT_FSIZE, &lim);
+    r = File::copy(sp, sq, (k & 1) == 1) ? 1 : 0;
+    setrlimit(RLIMIT_FSIZE, &old);
+  }
   else if(!strcmp(op, "rename")) r = File::rename(sp, sq, k == 1) ? 1 : 0;
   else if(!strcmp(op, "unlink")) r = File::unlink(sp) ? 1 : 0;
   else if(!strcmp(op, "dcreate")) r = Directory::create(sp) ? 1 : 0;
